@@ -34,6 +34,7 @@ package tcp
 //@   modifies all, relayseq, relaycopyat, relaycopydst, relaycopysrc, relaycwat, relaycwconn, relaycrat, relaycrconn
 //@   ensures @copy-then-half-close-the-destination-then-the-source old(relayseq) < relaycopyat && relaycopyat < relaycwat && relaycwat < relaycrat && relayseq == old(relayseq) + 3
 //@   ensures @right-direction relaycopydst == dst && relaycopysrc == src && relaycwconn == dst && relaycrconn == src
+//@   callpre (net.Conn).Close @a-connection-is-closed-outright-only-when-half-closing-it-just-failed prevresult != nil && ((arg0 == dst && relaycwat == relayseq) || (arg0 == src && relaycrat == relayseq))
 
 //@ func (*tcpProc).HandleConn
 //@   prop C05 C06 C20
